@@ -103,9 +103,22 @@ func (p *RoundRobin) Pick(s *Sim, r []*G) int {
 // anything else can run (at most Max times per site visit), random otherwise.
 type SiteDelay struct {
 	Sites map[uintptr]bool
+	// Salt/Den: when Sites is nil a pseudo-random subset of all sites (1 in Den, chosen by Salt) is delayed
+	Salt  uint64
+	Den   int
 	Max   int
 	held  map[int]int
 	Inner Strategy
+}
+
+func (p *SiteDelay) delayed(site uintptr) bool {
+	if p.Sites != nil {
+		return p.Sites[site]
+	}
+	if p.Den <= 0 {
+		return false
+	}
+	return SplitMix64(uint64(site)^p.Salt)%uint64(p.Den) == 0
 }
 
 func (p *SiteDelay) Pick(s *Sim, r []*G) int {
@@ -114,7 +127,7 @@ func (p *SiteDelay) Pick(s *Sim, r []*G) int {
 	}
 	var free []int
 	for i, g := range r {
-		if p.Sites[g.site] && p.held[g.ID] < p.Max {
+		if p.delayed(g.site) && p.held[g.ID] < p.Max {
 			continue
 		}
 		free = append(free, i)
@@ -126,7 +139,7 @@ func (p *SiteDelay) Pick(s *Sim, r []*G) int {
 		return s.Tape.Rng().IntN(len(r))
 	}
 	for _, g := range r {
-		if p.Sites[g.site] {
+		if p.delayed(g.site) {
 			p.held[g.ID]++
 		}
 	}
